@@ -499,13 +499,12 @@ void obsSpaces(vf::Runner& R, bool th, double CT) {
   for (int d = 1; d >= 0; --d) {
     cfgs.push_back({d != 0, 0, 3, 2, 4, 4, 0, th ? 5 : 4});
     if (th) cfgs.push_back({d != 0, 0, 4, 2, 5, 5, 0, 4});
-    cfgs.push_back({d != 0, 1, 2, 2, 3, 3, 0, th ? 6 : 5});
+    cfgs.push_back({d != 0, 1, 2, 2, 3, 3, 0, th ? 7 : 6});
     cfgs.push_back({d != 0, 2, 2, 2, 3, 3, 2, th ? 6 : 5});
   }
   for (auto& c : cfgs) {
     OSys proto(c.dir, c.fl, c.kn, c.ke, c.nn, c.ee, c.ki);
     std::string name = std::string(c.fl == 0 ? "obs-topology:" : c.fl == 1 ? "obs-association:" : "obs-index:") + (c.dir ? "dir" : "undir") + ":N" + str(c.kn) + ":E" + str(c.ke) + ":n" + str(c.nn) + ":e" + str(c.ee) + (c.fl == 2 ? ":i" + str(c.ki) : "") + ":d" + str(c.depth);
-    if (getenv("C14_ONLY") && !strstr(name.c_str(), getenv("C14_ONLY"))) continue;
     Cfg cc = c;
     R.explore(name, c.depth, proto.nops(), [cc] { return std::unique_ptr<OSys>(new OSys(cc.dir, cc.fl, cc.kn, cc.ke, cc.nn, cc.ee, cc.ki)); }, CT);
     recoverWitnesses(R, name);
